@@ -35,6 +35,7 @@ EXPLANATION = (
 EXPLANATION += (' R-C20-5: the identifier dataset and the value dataset of a variable are parallel arrays and must come from the same table in the same order class. R-C20-6: a value cached on the importer by a method with arguments must be keyed by them (zero instances expected; a built-in positive example is evaluated on every run).')
 EXPLANATION += (" R-C20-7: the index the importer attaches to a variable's values follows that variable's own MYGEOMETRYIDS order (identifier frame on the left of an order-preserving merge); the exporter applies no unit-dependent tolerance (np.allclose/isclose) when it decides about the mesh.")
 EXPLANATION += (' R-C20-8: an exporter attribute that a method sets under a data-dependent condition and another method reads (the dimension of the geometry) is assigned on every path of the setting method (CFG must-pass), so no value of an earlier add_* call survives.')
+EXPLANATION += (' R-C20-9: a list that collects one array per element (groupby group) is not packed into a rectangular numpy array (mixed element types make it ragged).')
 ASSUMPTIONS = [
     "h5py semantics: group[name] addresses a child, create_group/create_dataset create it, attrs is a key/value store",
     "string formatting with %s inserts exactly one path component",
@@ -426,6 +427,7 @@ def run(ctx):
     ctx.attempt(lambda c: _check_cache_keys(c, prog, imp_ci))
     ctx.attempt(lambda c: _check_value_order(c, prog, exp_ci, imp_ci))
     ctx.attempt(lambda c: _check_per_call_state(c, prog, exp_ci))
+    ctx.attempt(lambda c: _check_ragged(c, prog, exp_ci))
 
     # ---------------------------------------------------------------- R-C20-4 read only
     ctx.rule("R-C20-4", floor=2, what="importer opens the file read-only and reaches no write call")
@@ -617,6 +619,48 @@ def _check_value_order(ctx, prog, exp_ci, imp_ci):
     holder = prog.lookup_method(exp_ci, "_create_points_datasets")
     for st in dims:
         ctx.holds(holder or exp_ci.key, st, "dimension decided by the exact test %s" % norm_text(st.test))
+
+
+def _check_ragged(ctx, prog, exp_ci):
+    """R-C20-9: a list that collects one array per group of a groupby (the node ids of every element) has entries of
+    different lengths as soon as the mesh mixes element types; converting it with np.asarray / np.array (without
+    dtype=object) raises for such a mesh.  Mixed element types are part of the property."""
+    ctx.rule("R-C20-9", floor=1, what="per-element arrays of different lengths are not packed into a rectangular numpy array")
+    n = 0
+    for name, fs in exp_ci.methods.items():
+        f = fs[-1]
+        for loop in [x for x in walk_function(f.node) if isinstance(x, ast.For)]:
+            it = loop.iter
+            grouped = isinstance(it, ast.Name) and any(
+                isinstance(st, ast.Assign) and isinstance(st.targets[0], ast.Name) and st.targets[0].id == it.id and
+                isinstance(st.value, ast.Call) and isinstance(st.value.func, ast.Attribute) and st.value.func.attr == "groupby"
+                for st in walk_function(f.node)) or (isinstance(it, ast.Call) and isinstance(it.func, ast.Attribute) and
+                                                     it.func.attr == "groupby")
+            if not grouped:
+                continue
+            per_group = {st.targets[0].id for st in loop.body if isinstance(st, ast.Assign) and isinstance(st.targets[0], ast.Name)
+                         and any(isinstance(x, ast.Name) and isinstance(loop.target, ast.Name) and x.id == loop.target.id
+                                 for x in ast.walk(st.value)) and any(isinstance(x, ast.Attribute) and x.attr in ("values", "index")
+                                                                      for x in ast.walk(st.value))}
+            lists = {c.func.value.id for st in loop.body for c in calls_in(st) if isinstance(c.func, ast.Attribute) and
+                     c.func.attr == "append" and isinstance(c.func.value, ast.Name) and c.args and isinstance(c.args[0], ast.Name)
+                     and c.args[0].id in per_group}
+            for lst in sorted(lists):
+                n += 1
+                packs = [c for c in calls_in(f.node) if (call_name(c) or "") in ("np.asarray", "np.array", "np.stack", "np.vstack")
+                         and c.args and isinstance(c.args[0], ast.Name) and c.args[0].id == lst and
+                         not any(k.arg == "dtype" and norm_text(k.value) in ("object", "np.object_", "'object'") for k in c.keywords)]
+                if packs:
+                    st = packs[0]
+                    while not isinstance(st, ast.stmt):
+                        st = st._parent
+                    ctx.violated(f, st, "%s: %s collects one array per element and is packed with %s: for a mesh that mixes element "
+                                 "types (different node counts) the list is ragged and the conversion raises" %
+                                 (name, lst, norm_text(packs[0])), text="ragged " + lst)
+                else:
+                    ctx.holds(f, loop, "%s: per-element arrays in %s are kept as a list" % (name, lst))
+    if n == 0:
+        raise AnalysisError("exporter: no per-element array list found")
 
 
 def _check_per_call_state(ctx, prog, exp_ci):
@@ -1220,6 +1264,16 @@ def _is_range_check(fi):
 
 def variants():
     out = []
+
+    def pack_connectivity(tree):
+        f = find_func(tree, "VMAPExport._create_elements_dataset")
+        for st in f.body:
+            if isinstance(st, ast.Assign) and isinstance(st.targets[0], ast.Name) and isinstance(st.value, ast.Name) and \
+                    st.value.id == "node_ids_list":
+                st.value = parse_expr("np.asarray(node_ids_list)")
+                return True
+        return False
+    out.append(witness("per-element node id arrays packed with np.asarray", EXP_PATH, pack_connectivity, "R-C20-9"))
 
     def dimension_sticky(tree):
         f = find_func(tree, "VMAPExport._create_points_datasets")
